@@ -1,7 +1,12 @@
-import AdfObdd.NgModel
+import AdfObdd.AdfModel
 import AdfObdd.CountsDef
 import AdfObdd.Cubes
-/-! concrete executable model of `two_val_model_counts_logic` (repaired, D1 + D4) for the spike -/
+import AdfObdd.CountSearchK
+/-! Concrete executable model of `two_val_model_counts_logic` (as repaired, D1 + D4) and of
+    `stable_count_optimisation_heu_a/b`. The recursion is the generic machine `GK.search`
+    instantiated with the code's steps (`countParams`), so it is structurally recursive on a fuel
+    (`n + 1` levels suffice, proved in `CountInstance.lean`) and the theorems about the machine apply
+    to exactly what the driver runs handle for handle against the Rust. -/
 
 def heuA (s : Store) (interp : List Nat) (l r : Nat × Nat) : Ordering :=
   match compare (passive s r.1 interp) (passive s l.1 interp) with
@@ -24,63 +29,104 @@ def noInfIncons (a b : Nat) : Bool := sameInfo a b || !isTV a
 
 def cubesOf (s : Store) (t : Nat) (goal : Bool) (gv : Nat) : List PCube := cubesF s (t+1) t goal gv [] []
 
-def applyCube (interp willBe : List Nat) (c : PCube) : Option (List Nat) := Id.run do
-  let mut ni := interp
-  let mut ok := true
-  for v in c.1 do
-    if ok then
-      if ni.getD v 0 == 1 || willBe.getD v 2 == 1 then ok := false
-      else ni := ni.set v 0
-  -- `.and(..)` evaluates the positive loop eagerly
-  let mut ok2 := true
-  for v in c.2 do
-    if ok2 then
-      if (isTV (ni.getD v 0) && ni.getD v 0 != 1) || willBe.getD v 2 == 0 then ok2 := false
-      else ni := ni.set v 1
-  if ok && ok2 then some ni else none
+/-- the `negative.iter().try_for_each(..)` of the cube closure -/
+def negLoop (willBe : List Nat) : List Nat → List Nat → Option (List Nat)
+  | [], ni => some ni
+  | v :: vs, ni =>
+    if ni.getD v 0 == 1 || willBe.getD v 2 == 1 then none else negLoop willBe vs (ni.set v 0)
+
+/-- the `positive.iter().try_for_each(..)` of the cube closure -/
+def posLoop (willBe : List Nat) : List Nat → List Nat → Option (List Nat)
+  | [], ni => some ni
+  | v :: vs, ni =>
+    if (isTV (ni.getD v 0) && ni.getD v 0 != 1) || willBe.getD v 2 == 0 then none
+    else posLoop willBe vs (ni.set v 1)
+
+/-- `negative…try_for_each(..).and(positive…try_for_each(..))`: `.and` evaluates its argument
+eagerly, but the loops have no effect outside `new_int`, which is dropped on `Err` -/
+def applyCube (interp willBe : List Nat) (c : PCube) : Option (List Nat) :=
+  match negLoop willBe c.1 interp with
+  | none => none
+  | some ni => posLoop willBe c.2 ni
 
 def mapRestrict (s : Store) (v : Nat) (b : Bool) : List Nat → Store × List Nat
   | [] => (s, [])
   | t :: ts => let r := restrictF (t+1) s t v b; let m := mapRestrict r.1 v b ts; (m.1, r.2 :: m.2)
 
-partial def countLogic (ac : List Nat) (useA : Bool) (s : Store) (interp willBe : List Nat) : Store × List (List Nat) :=
-  let cands := (interp.zipIdx.filter (fun (t, i) => !(isTV t || isTV (willBe.getD i 2)))).map (fun (t, i) => (i, t))
-  match minBy (if useA then heuA s interp else heuB s interp) cands with
-  | none =>
-    let concluded := interp.zipIdx.map (fun (t, i) => if !isTV t then willBe.getD i 2 else t)
-    let r := applyInterp s concluded ac
-    if (r.2.zip concluded).all (fun (int, wb) => noInfIncons wb int) then (r.1, [r.2]) else (r.1, [interp])
-  | some (idx, a) =>
-    let checkModels := !moreModels (paths s a)
-    let goalT := if checkModels then 1 else 0
-    let cubes := cubesOf s a checkModels idx
-    let r1 := cubes.foldl (fun (acc : Store × List (List Nat)) c =>
-        match applyCube interp willBe c with
-        | none => acc
-        | some ni =>
-          let ni := ni.set idx goalT
-          let upd := applyInterp acc.1 ni ni
-          if (upd.2.zip willBe).all (fun (int, wb) => noInfIncons wb int) then
-            let rec' := countLogic ac useA upd.1 upd.2 willBe
-            (rec'.1, acc.2 ++ rec'.2)
-          else (upd.1, acc.2)) (s, [])
+/-- `apply_interpretation(ac, interp)`; `update_interpretation_fixpoint(v)` is `applyVec s v v`
+(the loop of the code compares `update(interpretation)` with itself in its second round, so it
+performs exactly one step; the second evaluation only hits the restriction memo) -/
+def applyVec (s : Store) (interp : List Nat) : List Nat → Store × List Nat
+  | [] => (s, [])
+  | a :: acs => let r := restrictBy StoreRA s a 0 interp; let m := applyVec r.1 interp acs; (m.1, r.2 :: m.2)
+
+/-- `check_consistency(v, will_be)` -/
+def consistentWith (v willBe : List Nat) : Bool := (v.zip willBe).all (fun (int, wb) => noInfIncons wb int)
+
+/-- `stability_check` -/
+def stabilityCheckC (s : Store) (n : Nat) (ac cand : List Nat) : Store × Bool :=
+  let red := mapFalse s cand ac
+  let grd := groundedLoop StoreRA (n + 1) red.1 red.2
+  (grd.1, (grd.2.zip cand).all (fun (a, b) => sameInfo a b))
+
+/-- the state of the recursion: `(interpr, will_be)` -/
+abbrev CState := List Nat × List Nat
+
+/-- positions undecided in both vectors, as `(index, handle)` -/
+def candidates (c : CState) : List (Nat × Nat) :=
+  (c.1.zipIdx.filter (fun (t, i) => !(isTV t || isTV (c.2.getD i 2)))).map (fun (t, i) => (i, t))
+
+/-- the steps of `two_val_model_counts_logic`. With `unrepaired := true` the cube list is cut at the
+first cube that contradicts the current vectors — the behaviour of the closure that returned `res`
+(defect D1; `applyCube` does not touch the store, so cutting the list is the same as aborting). -/
+def countParams (ac : List Nat) (useA : Bool) (unrepaired : Bool := false) :
+    GK.CParams Store CState PCube (List Nat) where
+  pick s c := (minBy (if useA then heuA s c.1 else heuB s c.1) (candidates c)).map (·.1)
+  goal s c idx := !moreModels (paths s (c.1.getD idx 0))
+  cubes s c idx g :=
+    let cs := cubesOf s (c.1.getD idx 0) g idx
+    if unrepaired then cs.takeWhile (fun cu => (applyCube c.1 c.2 cu).isSome) else cs
+  cubeStep s c idx g cu :=
+    match applyCube c.1 c.2 cu with
+    | none => (s, none)
+    | some ni =>
+      let ni := ni.set idx (if g then 1 else 0)
+      let upd := applyVec s ni ni
+      (upd.1, if consistentWith upd.2 c.2 then some (upd.2, c.2) else none)
+  flipStep s c idx g :=
     -- conclude the other value
-    let ni := mapRestrict r1.1 idx (!checkModels) interp
-    let upd := applyInterp ni.1 ni.2 ni.2
+    let ni := mapRestrict s idx (!g) c.1
+    let upd := applyVec ni.1 ni.2 ni.2
     let nidx := ni.2.getD idx 0
     if noInfIncons nidx (upd.2.getD idx 0) then
-      let other := if checkModels then 0 else 1
-      let upd2 := upd.2.set idx other
-      if noInfIncons nidx other then
-        let rec' := countLogic ac useA upd.1 upd2 (willBe.set idx nidx)
-        (rec'.1, r1.2 ++ rec'.2)
-      else (upd.1, r1.2)
-    else (upd.1, r1.2)
+      let other := if g then 0 else 1
+      if noInfIncons nidx other then (upd.1, some (upd.2.set idx other, c.2.set idx nidx))
+      else (upd.1, none)
+    else (upd.1, none)
+  leaf s c :=
+    let concluded := c.1.zipIdx.map (fun (t, i) => if !isTV t then c.2.getD i 2 else t)
+    let r := applyVec s concluded ac
+    if consistentWith r.2 concluded then (r.1, [r.2]) else (r.1, [c.1])
+
+/-- `two_val_model_counts_logic`, `fuel` levels of recursion -/
+def countLogic (ac : List Nat) (useA : Bool) (fuel : Nat) (s : Store) (interp willBe : List Nat) :
+    Store × List (List Nat) :=
+  GK.search (countParams ac useA) fuel s (interp, willBe)
+
+/-- the filter `.filter(|int| self.stability_check(int))`, threading the store -/
+def stableFilter (n : Nat) (ac : List Nat) (cands : List (List Nat)) (s : Store) : Store × List (List Nat) :=
+  cands.foldl (fun (acc : Store × List (List Nat)) v =>
+      let chk := stabilityCheckC acc.1 n ac v
+      (chk.1, if chk.2 then acc.2 ++ [v] else acc.2)) (s, [])
 
 /-- `stable_count_optimisation_heu_a/b` -/
 def countAll (s : Store) (n : Nat) (ac : List Nat) (useA : Bool) : Store × List (List Nat) :=
   let g := groundedLoop StoreRA (n + 1) s ac
-  let c := countLogic ac useA g.1 g.2 (List.replicate n 2)
-  c.2.foldl (fun (acc : Store × List (List Nat)) v =>
-      let chk := stabilityCheck acc.1 n ac v
-      (chk.1, if chk.2 then acc.2 ++ [v] else acc.2)) (c.1, [])
+  let c := countLogic ac useA (n + 1) g.1 g.2 (List.replicate n 2)
+  stableFilter n ac c.2 c.1
+
+/-- the same with the unrepaired cube loop (D1), for the counterexample -/
+def countAllUnrepaired (s : Store) (n : Nat) (ac : List Nat) (useA : Bool) : Store × List (List Nat) :=
+  let g := groundedLoop StoreRA (n + 1) s ac
+  let c := GK.search (countParams ac useA true) (n + 1) g.1 (g.2, List.replicate n 2)
+  stableFilter n ac c.2 c.1
